@@ -352,6 +352,20 @@ func ocspBehaviours() []ocspBehaviour {
 		a.Status = 500
 		return a
 	})
+	// the media type of an OCSP answer is application/ocsp-response however the header spells it (letter case, parameters: RFC 9110
+	// §8.3.1), and RFC 6960 does not make a client look at it at all: an authentic Revoked answer stays a Revoked answer
+	for _, ct := range []struct{ n, v string }{{"with-a-parameter", "application/ocsp-response; charset=binary"}, {"in-other-letter-case", "Application/OCSP-Response"}, {"absent", ""}} {
+		ct := ct
+		add("revoked/issuer/content-type-"+ct.n, clsRevoked, func(w *ocspWorld) netsim.Answer {
+			a := okResp(byIssuer(w, single(w, pki.OCSPRevoked)))
+			if ct.v == "" {
+				a.Header = http.Header{}
+			} else {
+				a.Header = http.Header{"Content-Type": {ct.v}}
+			}
+			return a
+		})
+	}
 	add("timeout", clsOther, func(w *ocspWorld) netsim.Answer { return netsim.Answer{Err: netsim.ErrTimeout} })
 	add("body-read-error", clsOther, func(w *ocspWorld) netsim.Answer {
 		b := byIssuer(w, single(w, pki.OCSPGood))
